@@ -63,6 +63,141 @@ fn run_stage_child(id: &str, stage: &Stage, tier: Tier, seed: u64) -> Result<Sta
     serde_json::from_str(&line[6..]).map_err(|e| format!("bad child stats: {e}"))
 }
 
+/// Does this binary evaluate stages of that profile in-process?
+fn runs_here(p: Profile) -> bool {
+    match p {
+        Profile::Release => !cfg!(debug_assertions),
+        Profile::Debug => cfg!(debug_assertions),
+        Profile::Isolated | Profile::IsolatedDebug => false,
+    }
+}
+
+fn isolated(p: Profile) -> bool {
+    matches!(p, Profile::Isolated | Profile::IsolatedDebug)
+}
+
+/// The binary that evaluates the cases of an isolated stage.
+fn isolated_bin(p: Profile) -> std::path::PathBuf {
+    let me = std::env::current_exe().expect("current_exe");
+    let target = me.parent().and_then(|p| p.parent()).expect("target dir");
+    target.join(if p == Profile::IsolatedDebug { "debug" } else { "release" }).join("vrun")
+}
+
+/// Evaluates one tape of an isolated stage in a child process. `Ok(report line)` if the child
+/// lived, `Err(signal or odd status)` if it died.
+fn eval_in_child(bin: &std::path::Path, id: &str, stage: &str, tape: &[u16]) -> Result<String, String> {
+    let dir = vcore::runner::verif_root().join("target");
+    let _ = std::fs::create_dir_all(&dir);
+    let file = dir.join(format!("evalone-{}-{:016x}.json", std::process::id(), hash_of(&tape)));
+    std::fs::write(&file, serde_json::to_string(&serde_json::json!({ "tape": tape })).unwrap()).map_err(|e| e.to_string())?;
+    let out = std::process::Command::new(bin)
+        .args(["evalone", id, stage, file.to_str().unwrap()])
+        .output();
+    let _ = std::fs::remove_file(&file);
+    let out = out.map_err(|e| e.to_string())?;
+    let stdout = String::from_utf8_lossy(&out.stdout).to_string();
+    if let Some(l) = stdout.lines().find(|l| l.starts_with("EVAL ")) {
+        return Ok(l.to_string());
+    }
+    use std::os::unix::process::ExitStatusExt;
+    let stderr = String::from_utf8_lossy(&out.stderr);
+    let why = stderr.lines().rev().find(|l| l.contains("overflowed its stack") || l.contains("fatal runtime error") || l.contains("memory allocation")).unwrap_or("").trim().to_string();
+    Err(match out.status.signal() {
+        Some(sig) => format!("signal-{sig}{}", if why.is_empty() { String::new() } else { format!(" ({why})") }),
+        None => format!("status-{:?}", out.status.code()),
+    })
+}
+
+fn crash_class(e: &str) -> &str {
+    e.split(' ').next().unwrap_or(e)
+}
+
+/// Runs a whole stage in a child process; the death of the child is attributed to one of the
+/// cases it was evaluating (confirmed by evaluating that case alone in another child).
+fn run_stage_isolated(id: &str, stage: &Stage, tier: Tier, seed: u64) -> Result<Stats, String> {
+    let name = stage.prop.stage();
+    let dir = vcore::runner::verif_root().join("target").join(format!("cur-{id}-{name}-{}", std::process::id()));
+    let _ = std::fs::remove_dir_all(&dir);
+    std::fs::create_dir_all(&dir).map_err(|e| e.to_string())?;
+    let bin = isolated_bin(stage.profile);
+    let out = std::process::Command::new(&bin)
+        .args(["part", id, name, &stage.cases(tier).to_string(), &seed.to_string()])
+        .env("VERIF_CURRENT_DIR", &dir)
+        .output()
+        .map_err(|e| format!("cannot start the child: {e}"))?;
+    let stdout = String::from_utf8_lossy(&out.stdout);
+    if let Some(line) = stdout.lines().find(|l| l.starts_with("STATS ")) {
+        let _ = std::fs::remove_dir_all(&dir);
+        return serde_json::from_str(&line[6..]).map_err(|e| format!("bad child stats: {e}"));
+    }
+    if out.status.code() == Some(2) && stdout.contains("INCONCLUSIVE") {
+        let _ = std::fs::remove_dir_all(&dir);
+        return Err(format!("child hang: {stdout}"));
+    }
+    if out.status.code() == Some(1) && stdout.contains("VIOLATION") {
+        let _ = std::fs::remove_dir_all(&dir);
+        print!("{stdout}");
+        std::process::exit(1);
+    }
+    // the child died: which of the cases it was running does that alone?
+    let mut tapes: Vec<Vec<u16>> = vec![];
+    if let Ok(rd) = std::fs::read_dir(&dir) {
+        let mut files: Vec<_> = rd.filter_map(|e| e.ok()).map(|e| e.path()).collect();
+        files.sort();
+        for f in files {
+            if let Ok(v) = serde_json::from_str::<serde_json::Value>(&std::fs::read_to_string(&f).unwrap_or_default()) {
+                if let Ok(t) = serde_json::from_value::<Vec<u16>>(v["tape"].clone()) {
+                    tapes.push(t);
+                }
+            }
+        }
+    }
+    let _ = std::fs::remove_dir_all(&dir);
+    for tape in tapes {
+        if let Err(how) = eval_in_child(&bin, id, name, &tape) {
+            let class = crash_class(&how).to_string();
+            let fails = |t: &[u16]| eval_in_child(&bin, id, name, t).err().map(|e| crash_class(&e) == class).unwrap_or(false);
+            let min = tape_passes(tape.clone(), &fails, stage.prop.shrink_budget());
+            let mut s = Stats::default();
+            s.cases = 1;
+            s.evaluations = 1;
+            s.violations.push(ViolationRecord {
+                property: id.to_string(),
+                stage: name.to_string(),
+                signature: format!("crash:{class}"),
+                detail: format!("the process evaluating this case died: {how} (evaluated alone in a fresh process, on a thread with a 2 MiB stack)"),
+                description: stage.prop.describe(&min),
+                tape: min,
+                case: None,
+                profile: if stage.profile == Profile::IsolatedDebug { "debug" } else { "release" }.to_string(),
+            });
+            return Ok(s);
+        }
+    }
+    Err(format!(
+        "the child running stage {name} died ({:?}) but none of the cases it was evaluating does that alone: {}",
+        out.status,
+        String::from_utf8_lossy(&out.stderr).lines().rev().take(5).collect::<Vec<_>>().join(" | ")
+    ))
+}
+
+fn cmd_evalone(id: &str, stage_name: &str, file: &str) -> i32 {
+    let stages = stages(id);
+    let Some(stage) = stages.iter().find(|s| s.prop.stage() == stage_name) else {
+        eprintln!("unknown stage {stage_name}");
+        return 2;
+    };
+    let v: serde_json::Value = serde_json::from_str(&std::fs::read_to_string(file).expect("read tape file")).expect("parse tape file");
+    let tape: Vec<u16> = serde_json::from_value(v["tape"].clone()).expect("tape");
+    vcore::run::install_panic_hook();
+    let rep = stage.prop.eval(&tape);
+    match rep.failure {
+        Some(f) => println!("EVAL fail {}", f.signature),
+        None => println!("EVAL ok"),
+    }
+    0
+}
+
 fn cmd_check(id: &str, tier: Tier) -> i32 {
     let seed = seed();
     let start = std::time::Instant::now();
@@ -91,10 +226,7 @@ fn cmd_check(id: &str, tier: Tier) -> i32 {
                 return 1;
             }
         }
-        if let Some(stage) = stages.iter().find(|s| match s.profile {
-            Profile::Release => !cfg!(debug_assertions),
-            Profile::Debug => cfg!(debug_assertions),
-        }) {
+        if let Some(stage) = stages.iter().find(|s| runs_here(s.profile)) {
             for g in vcore::golden::all() {
                 let rep = stage.prop.eval_struct(&g.case);
                 golden_run += 1;
@@ -149,6 +281,23 @@ fn cmd_check(id: &str, tier: Tier) -> i32 {
                 continue;
             }
             let Some(stage) = stages.iter().find(|s| s.prop.stage() == stage_name).or(stages.first()) else { continue };
+            if isolated(stage.profile) {
+                // a case of an isolated stage may kill the process that evaluates it
+                let tape: Vec<u16> = serde_json::from_value(v["tape"].clone()).unwrap_or_default();
+                replayed += 1;
+                total.evaluations += 1;
+                let bad = match eval_in_child(&isolated_bin(stage.profile), id, stage_name, &tape) {
+                    Ok(l) if l.starts_with("EVAL fail ") && match_known(&known, id, &l[10..]).is_none() => Some(l[10..].to_string()),
+                    Ok(_) => None,
+                    Err(how) => Some(format!("crash:{}", crash_class(&how))),
+                };
+                if let Some(sig) = bad {
+                    println!("--- regression case fails again ({sig}):\n{}", stage.prop.describe(&tape));
+                    println!("VIOLATION property={id} replay={}", f.display());
+                    return 1;
+                }
+                continue;
+            }
             vcore::run::install_panic_hook();
             let rep = match v.get("case").filter(|c| !c.is_null()) {
                 Some(c) => match serde_json::from_value::<vcore::minimize::StructCase>(c.clone()) {
@@ -191,6 +340,13 @@ fn cmd_check(id: &str, tier: Tier) -> i32 {
                 println!("INCONCLUSIVE property={id}: release stage requested from a debug binary");
                 return 2;
             }
+            Profile::Isolated | Profile::IsolatedDebug => match run_stage_isolated(id, stage, tier, seed) {
+                Ok(s) => s,
+                Err(e) => {
+                    println!("INCONCLUSIVE property={id} {e}");
+                    return 2;
+                }
+            },
         };
         per_stage.insert(
             stage.prop.stage().to_string(),
@@ -535,11 +691,7 @@ fn run_fuzz_campaign(
             let bytes = std::fs::read(e.path()).unwrap_or_default();
             let tape = vcore::tape::bytes_to_tape(&bytes);
             for stage in stages {
-                let matches_profile = match stage.profile {
-                    Profile::Release => !cfg!(debug_assertions),
-                    Profile::Debug => cfg!(debug_assertions),
-                };
-                if !matches_profile {
+                if !runs_here(stage.profile) {
                     continue;
                 }
                 if let Some(f) = stage.prop.eval(&tape).failure {
@@ -646,6 +798,25 @@ fn cmd_replay(path: &str) -> i32 {
         .find(|s| s.prop.stage() == stage_name)
         .or(stages.first())
         .expect("stage");
+    if isolated(stage.profile) {
+        println!("{}", stage.prop.describe(&tape));
+        return match eval_in_child(&isolated_bin(stage.profile), id, stage_name, &tape) {
+            Ok(l) if l.starts_with("EVAL fail ") => {
+                println!("--- {}", &l[10..]);
+                println!("VIOLATION property={id} replay={path}");
+                1
+            }
+            Ok(_) => {
+                println!("replay passes");
+                0
+            }
+            Err(how) => {
+                println!("--- crash:{how}: the process evaluating this case died");
+                println!("VIOLATION property={id} replay={path}");
+                1
+            }
+        };
+    }
     vcore::run::install_panic_hook();
     let rep = match v.get("case").filter(|c| !c.is_null()) {
         Some(c) => {
@@ -673,11 +844,7 @@ fn cmd_replay(path: &str) -> i32 {
 
 fn cmd_stats(id: &str, cases: u64) -> i32 {
     for stage in stages(id) {
-        let matches_profile = match stage.profile {
-            Profile::Release => !cfg!(debug_assertions),
-            Profile::Debug => cfg!(debug_assertions),
-        };
-        if !matches_profile {
+        if !runs_here(stage.profile) && !(stage.profile == Profile::Isolated && !cfg!(debug_assertions)) {
             continue;
         }
         let opts = RunOpts {
@@ -775,6 +942,7 @@ fn main() {
             }
             0
         }
+        Some("evalone") => cmd_evalone(&args[2], &args[3], &args[4]),
         Some("show") => cmd_show(&args[2], args.get(3).and_then(|s| s.parse().ok()).unwrap_or(3)),
         Some("stats") => cmd_stats(&args[2], args.get(3).and_then(|s| s.parse().ok()).unwrap_or(2000)),
         _ => {
